@@ -22,7 +22,8 @@ META = {
     "sequence.  The solver enumerates every feasible schedule inside the bound (W workers, B records per batch through the "
     "GAFTOOLS_VERIF_BATCH_SIZE hook, R rounds, idle budget T).  Assertion: exactly one line per input record, in input order, "
     "no exception, normal return.",
-    "bounds": {"quick": "(W,B,records,T) in {(1,1,1,1), (1,2,2,1), (1,1,2,1), (2,1,2,1), (1,1,1,2)}",
+    "bounds": {"quick": "(W,B,records,T) in {(1,1,1,1), (1,2,2,1), (1,1,2,1), (2,1,2,1), (1,1,1,2), (1,2,3,1), (2,1,1,1), (3,2,2,1)} - the last two have fewer full "
+                        "batches than cores, so full batches reach the leftover stage",
                "thorough": "adds (2,1,2,2), (2,2,4,1), (3,1,3,1), (2,1,4,1), (2,1,3,1)"},
     "out": ["unbounded idling of the parent while a worker computes", "pickling inside the real mp.Queue", "a worker killed in the middle "
             "of a pipe write (message corruption / lock held): deliveries are atomic in the model", "--cores above cpu_count()"],
@@ -31,8 +32,8 @@ META = {
 }
 
 CONFIGS = {
-    "quick": [(1, 1, 1, 1), (1, 2, 2, 1), (1, 1, 2, 1), (2, 1, 2, 1), (1, 1, 1, 2), (1, 2, 3, 1)],
-    "thorough": [(1, 1, 1, 1), (1, 2, 2, 1), (1, 1, 2, 1), (2, 1, 2, 1), (1, 1, 1, 2), (1, 2, 3, 1), (2, 1, 2, 2), (2, 2, 4, 1), (3, 1, 3, 1),
+    "quick": [(1, 1, 1, 1), (1, 2, 2, 1), (1, 1, 2, 1), (2, 1, 2, 1), (1, 1, 1, 2), (1, 2, 3, 1), (2, 1, 1, 1), (3, 2, 2, 1)],
+    "thorough": [(2, 1, 1, 1), (3, 2, 2, 1), (3, 1, 2, 1), (1, 1, 1, 1), (1, 2, 2, 1), (1, 1, 2, 1), (2, 1, 2, 1), (1, 1, 1, 2), (1, 2, 3, 1), (2, 1, 2, 2), (2, 2, 4, 1), (3, 1, 3, 1),
                  (2, 1, 4, 1), (2, 1, 3, 1)],
 }
 
